@@ -50,6 +50,11 @@ def run(ctx):
                 cases.append(E.make_case(rng, s, root=st))
         for i in range(5 if not ctx.thorough else 50):
             cases.append(E.make_case(rng, s, maxdepth=rng.choice([4, 5]), size=rng.choice([1.0, 4.0]), klass='deep'))
+    if 'bwide' in E.HG:
+        # <T>_<union>_add reserves the type and the value slot; sweep the inline size across the data-stack capacities 256 / 512
+        for inline in list(range(236, 263)) + list(range(496, 517)):
+            for rep in range(1 if not ctx.thorough else 4):
+                cases.append(E.make_union_realloc_case(rng, inline))
     if 'bwide' in E.BC:
         for i in range(6 if not ctx.thorough else 60):
             cases.append(E.make_wide_case(rng, count=rng.choice([100, 130, 200])))
@@ -135,8 +140,13 @@ def run(ctx):
         expd = bu.render_dec(s, c.node)
         if m != expd:
             ctx.violation('decode-differs:' + kind, 'the independent decoder does not return the value that was written (%s)' % m[:60], dict(base, expected=expd[:3000], decoded=m[:3000]))
+    known_keys = lib.load_findings()[0]
+
+    def unexplained():
+        """violations recorded so far that are not known findings (a known finding must not hide a model / implementation disagreement)"""
+        return [v for v in ctx.violations if (ctx.pid, v['key']) not in known_keys]
     for c in cases:
-        if c.himpl is not None and c.mimpl is not None and c.hrep != c.mrep and not ctx.violations:
+        if c.himpl is not None and c.mimpl is not None and c.hrep != c.mrep and not unexplained():
             what = [k for k in ('refs', 'align', 'start', 'end', 'bytes', 'emits') if c.himpl.get(k) != c.mimpl.get(k)]
             ctx.violation('corr:build:' + '+'.join(what), 'model and implementation disagree on a build script (%s differ)' % ','.join(what),
                           {'harness_line': c.h, 'model_line': c.m, 'schema': c.schema.name, 'impl': c.hrep[:3000], 'model': c.mrep[:3000]})
